@@ -202,18 +202,6 @@ func (w *world) script(code string, p person, redeem string) (ok bool, cleanup f
 	return ok, func() { w.ps.Auth.Unset("redeem", code); w.ps.Auth.Unset("profile", at) }
 }
 
-// lenient decoding = what "the same ciphertext, byte-wise after base64 decoding" refers to.
-func rawBytes(s string) ([]byte, bool) {
-	b, err := base64.RawURLEncoding.DecodeString(s)
-	return b, err == nil
-}
-
-func sameCiphertext(a, b string) bool {
-	x, ok1 := rawBytes(a)
-	y, ok2 := rawBytes(b)
-	return ok1 && ok2 && string(x) == string(y)
-}
-
 // perClass keeps flow counts per target class (for the dynamic coverage floor).
 type perClass struct {
 	mu        sync.Mutex
@@ -233,7 +221,7 @@ func (p *perClass) add(m *map[string]int, k string) {
 func TestProp(t *testing.T) {
 	env := vh.GetEnv()
 	rep := vh.NewReport("C06", "exploration")
-	rep.Rule("Part A: flow starts over a raw socket with request targets from a grammar of 20 classes (//host, backslashes, encoded slashes/backslashes/dots, userinfo, URLs in queries, encoded controls, long, empty query/fragment, unicode, scheme-in-path, non-URL bytes, own endpoints, absolute-form own host plain/hostile/other host, random token mixes), 301s followed by hand, each started flow completed honestly; Part B: two browsers' flows on one upstream and 30 callback permutations (state source x cookie source x duplicates x re-encodings x replays) crossed with authenticator answer, user class, error parameter, extra redirect parameters, request host (own / other upstream with different rules / unknown) on two stacks (http and https cookies). distinct = (target class, template or token-kind sequence, redirect hops, outcome) for Part A and (permutation, answer, user class, error, host relation, method, outcome) for Part B, counted only when the proxy answered the callback")
+	rep.Rule("Part A: flow starts over a raw socket with request targets from a grammar of 20 classes (//host, backslashes, encoded slashes/backslashes/dots, userinfo, URLs in queries, encoded controls, long, empty query/fragment, unicode, scheme-in-path, non-URL bytes, own endpoints, absolute-form own host plain/hostile/other host, random token mixes), 301s followed by hand, each started flow completed honestly; Part B: two browsers' flows on one upstream and 33 callback permutations (state source x cookie source x duplicates x replays x sealed-session confusion; plus, per re-encoding case, every textual variant of one side presented as the other side: padding, std alphabet, percent-escapes, space/tab, CR/LF, NUL, trailing dot, spare trailing bits, Unicode look-alikes, quotes, duplicated parameters, and case changes as a never-accepted control) crossed with authenticator answer, user class, error parameter, extra redirect parameters, request host (own / other upstream with different rules / unknown) on two stacks (http and https cookies). distinct = (target class, template or token-kind sequence, redirect hops, outcome) for Part A and (permutation, answer, user class, error, host relation, method, outcome) for Part B, counted only when the proxy answered the callback")
 	rep.Assume("the fake authenticator answers exactly as scripted per code; codes are single-use only where the case says so")
 	rep.Assume("'issued by this proxy's OAuthStart' is ground truth: the harness knows every state/cookie value the running proxy handed out in the case; values the harness seals itself with the known secret are marked as such")
 	rep.Assume("the browser-side reading of Location follows the WHATWG URL rules for special schemes (backslash = slash, tab/CR/LF removed, C0/space trimmed, any number of slashes before the authority); the reader is checked against documented vectors before use")
@@ -314,6 +302,14 @@ func TestProp(t *testing.T) {
 		rep.Floor("b_denied_user_refused", 10)
 		rep.Floor("b_redeem_failure_refused", 10)
 		rep.Floor("b_error_param_refused", 5)
+		rep.Floor("b_reenc_genuine_pair_accepted", 20)
+		for _, side := range []string{"state", "cookie"} {
+			for _, fam := range []string{"padding", "std-alphabet", "percent-encoded", "whitespace", "trailing-dot", "duplicated-parameter", "case-control"} {
+				rep.Floor("b_reenc_refused_"+side+"_"+fam, 10)
+			}
+		}
+		rep.Floor("b_reenc_refused_state_crlf", 10)
+		rep.Floor("b_reenc_refused_state_nul", 10)
 	}
 	if st := rep.Finish(); st == "violated" {
 		t.Fatalf("C06 violated")
